@@ -18,8 +18,9 @@ other field of the model state:
 -/
 namespace LunarVerif.C01
 
-/-- One reconstructed window: its start (unix seconds), how many arrivals were charged to it and how
-    many requests were let through while it was the current window. -/
+/-- One reconstructed window: its start (unix seconds), what was charged to it (sum of the amounts the
+    arrivals count: 1 each for `fixed_window`, the header value for a custom counter) and what the
+    requests let through while it was the current window had counted. -/
 structure Win where
   start    : Nat
   charged  : Nat
@@ -29,36 +30,36 @@ deriving Repr, DecidableEq
 /-- Does an arrival at instant `t` fall outside the window that started at second `s`? -/
 def outside (win s t : Nat) : Bool := decide (win ≤ t - s * nsPerSec)
 
-/-- A charged arrival at instant `t`: open a new window or count in the current one (newest first). -/
-def chargeWin (win t : Nat) : List Win → List Win
-  | [] => [⟨t / nsPerSec, 1, 0⟩]
-  | w :: ws => if outside win w.start t then ⟨t / nsPerSec, 1, 0⟩ :: w :: ws
-               else { w with charged := w.charged + 1 } :: ws
+/-- An arrival at instant `t` charged `cost`: open a new window or count in the current one (newest first). -/
+def chargeWin (win t cost : Nat) : List Win → List Win
+  | [] => [⟨t / nsPerSec, cost, 0⟩]
+  | w :: ws => if outside win w.start t then ⟨t / nsPerSec, cost, 0⟩ :: w :: ws
+               else { w with charged := w.charged + cost } :: ws
 
-/-- A request let through: counted in the current window. -/
-def admitWin : List Win → List Win
+/-- A request let through that had counted `amt`: counted in the current window. -/
+def admitWin (amt : Nat) : List Win → List Win
   | [] => []
-  | w :: ws => { w with admitted := w.admitted + 1 } :: ws
+  | w :: ws => { w with admitted := w.admitted + amt } :: ws
 
-/-- A charge given back: the current window counts one arrival less. -/
-def refundWin : List Win → List Win
+/-- A charge of `amt` given back: the current window counts that much less. -/
+def refundWin (amt : Nat) : List Win → List Win
   | [] => []
-  | w :: ws => { w with charged := w.charged - 1 } :: ws
+  | w :: ws => { w with charged := w.charged - amt } :: ws
 
 /-! ### Level layer -/
 
 /-- Does a level event concern level `k`? -/
 def LEv.at (k : Key) : LEv → Bool
-  | .inc k' _ _ _ => k' == k
-  | .allowed k' _ _ => k' == k
+  | .inc k' _ _ _ _ => k' == k
+  | .allowed k' _ _ _ => k' == k
   | .dec k' _ => k' == k
-  | .refund k' _ _ => k' == k
+  | .refund k' _ _ _ => k' == k
   | .verdict _ _ _ _ => false
 
 def tallyStep (win : Nat) (ws : List Win) : LEv → List Win
-  | .inc _ _ t .increased => chargeWin win t ws
-  | .allowed _ _ true => admitWin ws
-  | .refund _ _ true => refundWin ws
+  | .inc _ _ t cost .increased => chargeWin win t cost ws
+  | .allowed _ _ true amt => admitWin amt ws
+  | .refund _ _ true amt => refundWin amt ws
   | _ => ws
 
 /-- Windows of level `k` (newest first) reconstructed from a level log given most recent first. -/
@@ -101,24 +102,24 @@ def curAdmitted (win t : Nat) : List Win → Nat
   | [] => 0
   | w :: _ => if outside win w.start t then 0 else w.admitted
 
-/-- An arrival walks up the chain: at each level it is charged if the current window has room and only
-    then passed on to the parent; when a quota further up has no room the charge is given back.  The
-    flag says whether the arrival ended up charged to the whole chain. -/
+/-- An arrival walks up the chain: at each level it is charged what it counts there if the current
+    window has room for that much, and only then passed on to the parent; when a quota further up has no
+    room the charge is given back.  The flag says whether the arrival ended up charged to the whole chain. -/
 def sInc (ss : SSt) : List (QId × QuotaCfg) → Nat → Hdrs → SSt × Bool
   | [], _, _ => (ss, true)
   | (a, c) :: rest, t, h =>
     let k := (a, groupOf c h)
-    if c.max < curCharged c.win t (ss.at k) + 1 then (ss, false)
+    if c.max < curCharged c.win t (ss.at k) + costOf c h then (ss, false)
     else
-      let up := sInc (ss.set k (chargeWin c.win t (ss.at k))) rest t h
-      if up.2 then (up.1, true) else (up.1.set k (refundWin (up.1.at k)), false)
+      let up := sInc (ss.set k (chargeWin c.win t (costOf c h) (ss.at k))) rest t h
+      if up.2 then (up.1, true) else (up.1.set k (refundWin (costOf c h) (up.1.at k)), false)
 
 /-- A request let through counts in the current window of every level of its chain. -/
 def sAdmit (ss : SSt) : List (QId × QuotaCfg) → Hdrs → SSt
   | [], _ => ss
   | (a, c) :: rest, h =>
     let k := (a, groupOf c h)
-    sAdmit (ss.set k (admitWin (ss.at k))) rest h
+    sAdmit (ss.set k (admitWin (costOf c h) (ss.at k))) rest h
 
 def sStep (cfg : Cfg) (ss : SSt) (o : Obs) : SSt :=
   match o.op.kind, o.ans with
@@ -138,7 +139,16 @@ def nodupB : List Nat → Bool
   | [] => true
   | x :: xs => !(xs.contains x) && nodupB xs
 
-def regular (h : History) : Bool := nodupB (arrivals h)
+/-- The calls of one request carry the same headers as its arrival. -/
+def consistentFrom (arr : List (Rid × Hdrs)) : History → Bool
+  | [] => true
+  | o :: rest =>
+    if o.op.kind == .inc || o.op.kind == .req then consistentFrom ((o.op.r, o.op.h) :: arr) rest
+    else (match arr.lookup o.op.r with
+          | some h' => h' == o.op.h
+          | none => true) && consistentFrom arr rest
+
+def regular (h : History) : Bool := nodupB (arrivals h) && consistentFrom [] h
 
 /-- Requests handled one at a time: only complete limiter calls. -/
 def sequential (h : History) : Bool := h.all (fun o => o.op.kind == .req)
@@ -164,9 +174,10 @@ def spacedHolds (cfg : Cfg) (h : History) : Bool :=
   let ss := sRun cfg SSt.init h
   h.all (spacedAt cfg ss)
 
-/-- Some quota of the chain has already let `max` requests through in its current window. -/
+/-- Some quota of the chain has no room left for what the request counts there, given what it has
+    already let through in its current window (for `fixed_window`: it has let `max` requests through). -/
 def fullAdmitted (ss : SSt) (ch : List (QId × QuotaCfg)) (t : Nat) (h : Hdrs) : Bool :=
-  ch.any fun (a, c) => decide (c.max ≤ curAdmitted c.win t (ss.at (a, groupOf c h)))
+  ch.any fun (a, c) => decide (c.max < curAdmitted c.win t (ss.at (a, groupOf c h)) + costOf c h)
 
 /-- (iii) Exactness along a history: every refused limiter call meets `full` in the state before it. -/
 def exactFrom (cfg : Cfg) (full : SSt → List (QId × QuotaCfg) → Nat → Hdrs → Bool) : SSt → History → Bool
@@ -196,13 +207,14 @@ def observe (cfg : Cfg) : St → List Op → History
   | _, [] => []
   | st, o :: os => ⟨o, (apiStep cfg st o).2⟩ :: observe cfg (apiStep cfg st o).1 os
 
-/-- Configuration as the loader admits it: windows are whole seconds (≥ 1 s), limits positive,
-    a parent precedes its children. -/
+/-- Configuration as the loader admits it: windows are whole seconds (≥ 1 s), a parent precedes its
+    children.  (Limits written in the file are positive; the effective limit of an
+    `allocation_percentage` child may be 0.) -/
 def wellFormed (cfg : Cfg) : Bool :=
   (List.range cfg.quotas.length).all fun i =>
     match cfg.quotas[i]? with
     | none => true
-    | some c => decide (0 < c.max) && decide (0 < c.win) && decide (c.win % nsPerSec = 0)
+    | some c => decide (0 < c.win) && decide (c.win % nsPerSec = 0)
                 && (match c.parent with | none => true | some p => decide (p < i))
 
 end LunarVerif.C01
